@@ -8,7 +8,9 @@ LEVEL = "exploration"
 RULE = ("seeded link definitions (numeric +n/-n, >/<, * orders; resname strings and choices, link-wide or per atom; "
         "extra atype constraints; replace and atom removal; explicit [edges] with linktype labels, {edge:false}; "
         "[non-edges]; [patterns]; versions; 2-4 residues; dangling .itp interactions) x residue graphs (linear/tree/"
-        "ring with chords, labelled edges, ids from any start) through the real gen_params; expectation by brute-force "
+        "ring with chords, labelled edges, ids from any start) through the real gen_params; and residue graphs over the "
+        "blocks of the force fields shipped with polyply (-lib), the parsed definitions translated for the same reference "
+        "(residue attributes such as chiral included); expectation by brute-force "
         "enumeration of injective residue assignments (pvmon.oracle.refparams). non-trivial = at least one link match "
         "expected or observed; distinct = hash of (files, graph)")
 ASSUMPTIONS = ["non-edge anchors are atoms of the reference residue (order 0) and never name atoms of their own link",
@@ -19,14 +21,15 @@ CASE_TIMEOUT = 60
 WALL = {"quick": 900, "thorough": 7200}
 REQUIRED = {"link_matches_expected": 300, "rej_order": 100, "rej_induced": 100, "rej_resname": 50, "rej_linktype": 10,
             "rej_nonedge": 3, "rej_pattern": 5, "overrides": 5, "dangling_matches": 20, "removals": 3,
-            "replacements": 5, "inter_residue_edges_checked": 200}
+            "replacements": 5, "inter_residue_edges_checked": 200, "library_link_matches": 2000, "libraries": 6}
 LINK_OPTS = {"p_remove": 0.12, "p_nonedge": 0.25, "p_pattern": 0.2, "linktypes": True, "p_edge": 0.25,
              "nres": [2, 2, 2, 3, 3, 4], "p_replace": 0.2, "p_version": 0.15, "p_attr": 0.2}
 
 
 def plan(tier, seed):
     n = 4000 if tier == "quick" else 40000
-    return [["links", i] for i in range(n)] + [["dangling", i] for i in range(n // 4)]
+    return [["links", i] for i in range(n)] + [["dangling", i] for i in range(n // 4)] + \
+        [["library", i] for i in range(n // 5)]
 
 
 def setup():
@@ -35,12 +38,19 @@ def setup():
 
 def run_case(cid, rng, workdir):
     res = new_result()
-    if cid[0] == "dangling":
+    if cid[0] == "library":
+        # the force fields shipped with polyply, as polyply parses them, against the same reference
+        case = PC.build_library_case(rng)
+        ev = PC.evaluate_library(case, workdir)
+        if case["unsupported_links"]:
+            bump(res, "library_cases_with_links_outside_the_reference")
+    elif cid[0] == "dangling":
         case = paramcase.build(rng, profile="full", layouts=["itp_dangling"], nmin=2, nmax=8)
+        ev = PC.evaluate(case, workdir)
     else:
         case = paramcase.build(rng, profile="full", link_opts=LINK_OPTS, max_links=5, nmin=2, nmax=7,
                                layouts=["ff", "ff", "ff+itp", "itp+ff", "multi"])
-    ev = PC.evaluate(case, workdir)
+        ev = PC.evaluate(case, workdir)
     res["sig"] = sig_of([case["files"], case["graph"]])
     res["sample"] = case["descr"]
     if ev["ref"] is None:
@@ -56,6 +66,10 @@ def run_case(cid, rng, workdir):
     bump(res, "link_matches_expected", st.get("matches", 0))
     if cid[0] == "dangling":
         bump(res, "dangling_matches", st.get("matches", 0))
+    if cid[0] == "library":
+        bump(res, "library_link_matches", st.get("matches", 0))
+        note(res, "libraries", case["lib"])
+        note(res, "library_residues", [case["lib"]] + sorted({n["resname"] for n in case["graph"]["nodes"]}))
     for k in ("rej_order", "rej_induced", "rej_resname", "rej_linktype", "rej_nonedge", "rej_pattern",
               "rej_atom_none", "rej_atom_ambiguous", "overrides"):
         bump(res, k, st.get(k, 0))
@@ -77,7 +91,11 @@ def run_case(cid, rng, workdir):
         w = w or PC.witness(case)
         violation(res, key, msg, w)
     # replacements / removals are link effects: atoms table
-    for key, msg, _ in ev["diffs"]["atoms"]:
+    termini = PC.default_termini(case) if cid[0] == "library" else set()
+    for key, msg, resid in ev["diffs"]["atoms"]:
+        if resid in termini and key in ("atom-charge", "atom-mass", "atom-atype"):
+            bump(res, "atoms_of_default_termini_left_to_C01")
+            continue
         if key in ("atom-charge", "atom-mass", "atom-atype", "atom-count", "atom-name"):
             w = w or PC.witness(case)
             violation(res, "link-replace:" + key, msg, w)
